@@ -131,7 +131,8 @@ class LearningSwitch (object):
         if not isinstance(duration, tuple):
           duration = (duration,duration)
         msg = of.ofp_flow_mod()
-        msg.match = of.ofp_match.from_packet(packet, event.port)
+        msg.match = of.ofp_match.from_packet(packet, event.port,
+                                            spec_frags = True)
         msg.idle_timeout = duration[0]
         msg.hard_timeout = duration[1]
         msg.buffer_id = event.ofp.buffer_id
@@ -172,7 +173,8 @@ class LearningSwitch (object):
         log.debug("installing flow for %s.%i -> %s.%i" %
                   (packet.src, event.port, packet.dst, port))
         msg = of.ofp_flow_mod()
-        msg.match = of.ofp_match.from_packet(packet, event.port)
+        msg.match = of.ofp_match.from_packet(packet, event.port,
+                                            spec_frags = True)
         msg.idle_timeout = 10
         msg.hard_timeout = 30
         msg.actions.append(of.ofp_action_output(port = port))
